@@ -350,7 +350,24 @@ def applicable_kinds(gspec):
     return ["E"] if len(gspec["frames"]) > 1 else list(KINDS)
 
 
-def check_geom(ctx, gspec, kinds=None):
+def apply_xyz_edit(obj, spec, e):
+    """edit the object IN PLACE; return the harness's own updated reference"""
+    sp = dict(spec, atoms=[list(a) for a in spec["atoms"]], frames=[[list(p) for p in f] for f in spec["frames"]])
+    if e["f"] == "element":
+        obj.atoms[e["i"]].element = Element(e["v"])
+        sp["atoms"][e["i"]][0] = e["v"]
+    elif e["f"] == "coordinate":
+        if spec["kind"] == "E":
+            obj.coords[e["fr"], e["i"], e["c"]] = e["v"]
+        else:
+            obj.coords[e["i"], e["c"]] = e["v"]
+        sp["frames"][e["fr"] if spec["kind"] == "E" else 0][e["i"]][e["c"]] = e["v"]
+    else:
+        raise HarnessError(repr(e))
+    return sp
+
+
+def check_geom(ctx, gspec, kinds=None, edit=None):
     """gspec: spec without 'kind'.  All applicable classes are run inside ONE case so that the
     signature can say whether a symptom belongs to one class or to all of them."""
     tmp = Path(ctx.scratch) / f"c08-{os.getpid()}.xyz"
@@ -364,7 +381,7 @@ def check_geom(ctx, gspec, kinds=None):
     ncls = "n=0" if n == 0 else "n>0"
     ctx.count(evaluations=1, states=1, traces=1)
     if n > 0 and any(c == c and c != 0 for f in gspec["frames"] for p in f for c in p):
-        ctx.nontrivial(digest(gspec))
+        ctx.nontrivial(digest((gspec, edit)))
     cells, wcells, detail = {}, {}, {}
     all_texts = []
     writers = writers_used = WRITERS if fmt is None else [w for w in WRITERS if w != "dumps_xyz"]
@@ -379,6 +396,22 @@ def check_geom(ctx, gspec, kinds=None):
         if not holds:
             ctx.add_note("constructed_object_stores_other_coordinate_values_than_requested")
             spec = dict(spec, frames=ref)
+        if edit is not None:
+            # write - edit in place - write: what the writer derives from the object follows its CURRENT state
+            ctx.count(transitions=1)
+            try:
+                do_write(obj, edit["first"], tmpw)
+            except Exception:
+                pass  # a failing first write is reported by the plain cases
+            try:
+                for e in edit["edits"]:
+                    spec = apply_xyz_edit(obj, spec, e)
+            except HarnessError:
+                raise
+            except Exception as e_:
+                wcells.setdefault(f"setup-edit-raised-{exc(e_)}", set()).add((kind, "-"))
+                detail.setdefault(f"setup-edit-raised-{exc(e_)}", f"{exc(e_)}: {e_}")
+                continue
         texts = {}
         for w in writers:
             ctx.count(transitions=1)
@@ -409,7 +442,9 @@ def check_geom(ctx, gspec, kinds=None):
                     detail.setdefault(s, d)
     ctx.outcome((digest(all_texts), tuple(sorted(cells)), tuple(sorted(wcells))))
     fcls = "" if fmt is None else "|fmt=explicit"
-    case = {"layer": "RT", "gspec": gspec, "kinds": kinds}
+    if edit is not None:
+        fcls += "|after[write+edit-in-place]"
+    case = {"layer": "RT", "gspec": gspec, "kinds": kinds, "edit": edit}
     for sym in sorted(wcells):
         for gk, gw in product_groups(wcells[sym], 2):
             if gw == ["-"]:
@@ -675,6 +710,25 @@ def gen_R4(seed, thorough):
     for f in rot(FMTS, seed):
         for p in tr:
             yield gspec("fmt", [(6, REG), (1, REG)], [[p, tr[0]]], fmt=f)
+
+
+def gen_RW(seed, thorough):
+    """write - edit in place (an element, a coordinate) - write again, every class, every writer as the first write"""
+    tr = triples(seed + 6, [v for v in CVALS if v == v])
+    atoms = [(6, REG), (8, REG), (1, REG)]
+    f0 = [tr[0], tr[2], tr[4]]
+    for frames in ([f0], [f0, f0[1:] + f0[:1]]):
+        k = len(frames)
+        edits = []
+        for i in range(3):
+            edits += [{"f": "element", "i": i, "v": 9}, {"f": "element", "i": i, "v": 0}, {"f": "element", "i": i, "v": 46}]
+            edits += [{"f": "coordinate", "i": i, "c": i % 3, "fr": i % k, "v": 7.25 + i}]
+        for first in rot(WRITERS, seed):
+            for e in edits:
+                yield gspec("rw", atoms, frames), {"first": first, "edits": [e]}
+            for a in edits[:4]:
+                for b in edits[4:8]:
+                    yield gspec("rw", atoms, frames), {"first": first, "edits": [a, b]}
 
 
 R_LAYERS = {"R0": gen_R0, "R1": gen_R1, "R2": gen_R2, "R3": gen_R3, "R4": gen_R4}
@@ -982,6 +1036,13 @@ def _part_inner(ctx, part):
             if idx == i and i < 2:
                 ctx.sample({"layer": layer, "gspec": g})
         return
+    if layer == "RW":
+        for idx, (g, edit) in enumerate(gen_RW(seed, thorough)):
+            if idx % nparts != i:
+                continue
+            check_geom(ctx, g, edit=edit)
+            ctx.add_note("cases_RW")
+        return
     if layer == "RF":
         for idx, (atoms, sframes) in enumerate(gen_RF(seed, thorough)):
             if idx % nparts != i:
@@ -1046,6 +1107,8 @@ def run(ctx):
         "object -> text -> object is judged against what the constructed OBJECT holds (normally exactly the requested values); text -> object is judged "
         "against the numbers in the file: layer RF (6 written decimals, |read - file| <= 0.5e-6 + 4 ulp, every reader of every class) and layer UNITS "
         "(units that are exact powers of ten of the Angstrom: rel. 1e-9; Bohr/au: rel. 1e-5)",
+        "layer RW (write - edit in place - write): a geometry written once, whose atom's element or a coordinate is then edited in place, must be written "
+        "according to its CURRENT state by every writer (no per-object memo of symbols / coordinates)",
         "layer RH (multi-frame texts of DIFFERENT geometries): texts come from the harness's formatter ('*' for a dummy) and from molli (each geometry "
         "dumped, texts concatenated); every frame must come back with its own count, order, elements, coordinates; '*' must read as AtomType.Dummy and a "
         "real symbol as a non-dummy (reader's documented convention) - checked on harness texts only, molli itself writes a dummy as 'Unknown'",
@@ -1069,7 +1132,7 @@ def run(ctx):
     )
     np_ = 16 if thorough else 8
     parts = []
-    for layer in ("R0", "R4", "R3", "RF", "RH", "UNITS", "R2", "R1"):
+    for layer in ("R0", "R4", "R3", "RF", "RW", "RH", "UNITS", "R2", "R1"):
         n = 1 if layer == "R0" else np_ * (4 if (thorough and layer in ("R1", "R2")) else 1)
         parts += [(layer, i, n) for i in range(n)]
     ctx.pmap(_part, parts)
@@ -1077,7 +1140,7 @@ def run(ctx):
 
 def replay(ctx, case):
     if case["layer"] == "RT":
-        check_geom(ctx, normspec(case["gspec"]), kinds=case.get("kinds"))
+        check_geom(ctx, normspec(case["gspec"]), kinds=case.get("kinds"), edit=case.get("edit"))
     elif case["layer"] == "RF":
         check_file(ctx, [(int(a[0]), int(a[1])) for a in case["atoms"]], case["sframes"])
     elif case["layer"] == "RH":
